@@ -550,6 +550,70 @@ def _sentinel_checked(helper, sentinel):
     return res
 
 
+def _is_fatal_call(fn, call):
+    """sys.exit(...) / <ArgumentParser>.error(...) / .exit(...): never
+    return."""
+    nm = call_name(call) or ""
+    if nm.endswith(("sys.exit", "parser.error", "os._exit")) or nm == "exit":
+        return True
+    f = call.func
+    if isinstance(f, ast.Attribute) and f.attr in ("error", "exit") and \
+            isinstance(f.value, ast.Name):
+        if f.value.id in fn.params:
+            return "pars" in f.value.id.lower()
+        for d in local_defs(fn.node).get(f.value.id, []):
+            if isinstance(d.value, ast.Call) and (
+                    call_name(d.value) or "").endswith("ArgumentParser"):
+                return True
+    return False
+
+
+def _main_passes_status(fn):
+    """(ok, undecided) for a script's main(): the status returned by the
+    driver function reaches a `return`.  FAIL only if a driver call's value is
+    discarded (bare expression statement) or main never returns a value."""
+    defs = local_defs(fn.node)
+    owner = enclosing_stmt_map(fn.node)
+    skip = ("parse_command_line", "init_logging_for_cmdline", "getLogger",
+            "basicConfig", "vars")
+    drivers = []
+    for c in calls_in(fn.node):
+        nm = (call_name(c) or "")
+        short = nm.split(".")[-1]
+        if short in skip or not nm:
+            continue
+        tgt = fn.module.resolve(nm) or ""
+        if short in fn.module.functions or tgt.startswith(PKG + "."):
+            drivers.append(c)
+    rets = [s_ for s_ in stmts_of(fn.node) if isinstance(s_, ast.Return)]
+    if not drivers:
+        return False, True
+    if not any(r.value is not None for r in rets):
+        return False, False
+    ret_names = set()
+    for r in rets:
+        if r.value is not None:
+            ret_names |= closure_names(fn.node, names_in(r.value), defs)
+    verdicts = []
+    for c in drivers:
+        st = owner.get(id(c))
+        if isinstance(st, ast.Return):
+            verdicts.append(True)
+        elif isinstance(st, ast.Expr) and st.value is c:
+            verdicts.append(False)          # status discarded
+        elif isinstance(st, ast.Assign) and any(
+                isinstance(t, ast.Name) and t.id in ret_names
+                for t in st.targets):
+            verdicts.append(True)
+        else:
+            verdicts.append(None)
+    if any(v is False for v in verdicts):
+        return False, False
+    if all(v is True for v in verdicts):
+        return True, False
+    return False, True
+
+
 def exit_status(repo, col):
     rule = "E-EXIT"
     fns = [repo.func(ms, qn) for ms, qn in DRIVER_FUNCS]
@@ -579,8 +643,7 @@ def exit_status(repo, col):
                     ok = c is not None and c != 0
                     what = "returns %s" % norm(v)
                 elif isinstance(last, ast.Expr) and isinstance(last.value, ast.Call) \
-                        and (call_name(last.value) or "").endswith(
-                            ("parser.error", "sys.exit")):
+                        and _is_fatal_call(fn, last.value):
                     ok = True
                 elif isinstance(last, ast.Assign) and \
                         isinstance(last.targets[0], ast.Name) and \
@@ -607,13 +670,10 @@ def exit_status(repo, col):
                         "can exit with a success status although the "
                         "operation failed" % what, node=h)
         if fn.qualname == "main" and fn.module.name.count(".") == 2:
-            rets = [s for s in stmts_of(fn.node) if isinstance(s, ast.Return)]
-            ok = bool(rets) and all(
-                isinstance(r.value, ast.BoolOp) and isinstance(r.value.op, ast.Or)
-                and const_int(r.value.values[-1]) == 0 for r in rets)
-            col.add(rule + ".main", fn, "return driver(...) or 0", ok,
+            ok, und = _main_passes_status(fn)
+            col.add(rule + ".main", fn, "return driver(...) or 0", ok or und,
                     "" if ok else "main does not pass the driver's status on",
-                    nontrivial=False)
+                    nontrivial=False, undecided=und and not ok)
     return n_handlers
 
 
@@ -663,9 +723,18 @@ def orientation_tables(repo, col):
             "permutation: %s" % bad)
     # the CLI validates against the table
     fn = repo.func("scripts.slices_to_precomputed", "parse_command_line")
-    ok = any(isinstance(n, ast.Compare) and isinstance(n.ops[0], ast.NotIn)
-             and norm(n.comparators[0]) == "POSSIBLE_AXIS_ORIENTATIONS"
-             for n in walk_local(fn.node))
+    # membership test against the table (either polarity, possibly in a
+    # helper predicate, or `choices=` of the argument)
+    ok = False
+    for h in helper_closure(fn):
+        for n in walk_local(h.node):
+            if isinstance(n, ast.Compare) and isinstance(
+                    n.ops[0], (ast.NotIn, ast.In)) and \
+                    norm(n.comparators[0]) == "POSSIBLE_AXIS_ORIENTATIONS":
+                ok = True
+            if isinstance(n, ast.keyword) and n.arg == "choices" and \
+                    "POSSIBLE_AXIS_ORIENTATIONS" in norm(n.value):
+                ok = True
     col.add(rule, fn, "orientation validated against the table", ok,
             "" if ok else "the command line no longer rejects codes outside "
             "the table")
@@ -796,7 +865,15 @@ def _owning_expr(module, v, target):
 
 def inplace_ownership(repo, col):
     rule = "E-OWN"
-    fn = repo.func("data_types", "get_chunk_dtype_transformer.chunk_transformer")
+    from .core import returned_closure
+    fn = returned_closure(repo.func("data_types",
+                                    "get_chunk_dtype_transformer"))
+    if fn is None or not fn.params:
+        col.add(rule, "data_types:get_chunk_dtype_transformer",
+                "converter closure", True, "the converter is not a nested "
+                "function: its in-place writes are not analysed",
+                undecided=True)
+        return 0
     m = fn.module
     params = fn.params
     arr = params[0]
@@ -804,9 +881,18 @@ def inplace_ownership(repo, col):
     if preserve is None:
         raise AnalysisError("anchor vanished: preserve_input parameter")
     sites = 0
+    tracked_all = {arr}
     for path in _paths(fn.node.body):
-        owned = False
+        # per-path state: which names hold a private copy, and which may
+        # alias the caller's array (root = the parameter they derive from)
+        owned = {}
+        root = {arr: arr}
         conds = []
+
+        def _writeable(nm):
+            return owned.get(nm, False) or \
+                ("%s.flags.writeable" % nm, "truthy") in conds or \
+                ("%s.flags.writeable" % root.get(nm, nm), "truthy") in conds
         for ev in path:
             if ev[0] == "cond":
                 conds += [(norm(a.left), a.op) for a in holds(ev[1], ev[2])]
@@ -817,49 +903,76 @@ def inplace_ownership(repo, col):
             # in-place writes in this statement
             for c in calls_in(st):
                 out = kwarg(c, "out")
-                if out is not None and norm(out) == arr:
+                if out is not None and norm(out) in root:
+                    nm = norm(out)
                     sites += 1
-                    writeable = owned or ("%s.flags.writeable" % arr,
-                                          "truthy") in conds
+                    writeable = _writeable(nm)
                     col.add(rule + ".writeable", fn, norm(c)[:60],
                             writeable, "" if writeable else
                             "in-place write into `%s`, which on this path is "
                             "neither a fresh copy nor checked with "
                             ".flags.writeable: fails on read-only buffers "
-                            "(decoded chunks, memory maps)" % arr, node=c,
+                            "(decoded chunks, memory maps)" % nm, node=c,
                             path=["%s %s" % c_ for c_ in conds])
                     may_preserve = (preserve, "falsy") not in conds
-                    okp = owned or not may_preserve
+                    okp = owned.get(nm, False) or not may_preserve
                     col.add(rule + ".preserve", fn, norm(c)[:60], okp,
                             "" if okp else "in-place write into the caller's "
                             "array on a path where preserve_input may be "
                             "true", node=c)
-            if isinstance(st, ast.AugAssign) and norm(st.target) == arr:
+            if isinstance(st, ast.AugAssign) and norm(st.target) in root:
                 sites += 1
-                col.add(rule + ".writeable", fn, norm(st)[:60], owned,
-                        "" if owned else "augmented assignment writes into "
+                okw = owned.get(norm(st.target), False)
+                col.add(rule + ".writeable", fn, norm(st)[:60], okw,
+                        "" if okw else "augmented assignment writes into "
                         "a possibly borrowed array", node=st)
             if isinstance(st, ast.Assign) and len(st.targets) == 1 and \
-                    norm(st.targets[0]) == arr:
+                    isinstance(st.targets[0], ast.Name):
+                tgt = st.targets[0].id
                 v = st.value
-                if _owning_expr(m, v, arr):
-                    owned = True
+                srcs = [n_ for n_ in names_in(v) if n_ in root]
+                if not srcs:
+                    if tgt in root and tgt != arr:
+                        root.pop(tgt, None)
+                        owned.pop(tgt, None)
+                    elif tgt == arr:
+                        owned[arr] = False
+                    continue
+                src = srcs[0]
+                if _owning_expr(m, v, src):
+                    owned[tgt] = True
+                    root[tgt] = root.get(src, src)
                 elif isinstance(v, ast.Call) and (m.resolve(call_name(v) or "")
                                                   in ("numpy.asarray",
                                                       "numpy.asanyarray",
                                                       "numpy.array")):
-                    pass        # may alias: state unchanged
+                    # may alias: ownership is inherited from the source
+                    if tgt != src:
+                        owned[tgt] = owned.get(src, False)
+                    root[tgt] = root.get(src, src)
+                elif isinstance(v, ast.Name):
+                    owned[tgt] = owned.get(src, False)
+                    root[tgt] = root.get(src, src)
                 else:
-                    owned = False
+                    if tgt in root:
+                        owned[tgt] = False
+                    else:
+                        continue
+                tracked_all.add(tgt)
     if sites == 0:
-        raise AnalysisError("anchor vanished: in-place writes (out=) in %s"
-                            % fn.key)
+        col.add(rule + ".writeable", fn, "in-place writes (out=)", True,
+                "no in-place write into the chunk or a local derived from it "
+                "was recognised in %s" % fn.key, undecided=True)
     # the final cast reads the array that was rounded/clipped
+    outer_fn = repo.func("data_types", "get_chunk_dtype_transformer")
+    out_param = outer_fn.params[1] if len(outer_fn.params) > 1 else \
+        "output_dtype"
     rets = [s for s in stmts_of(fn.node) if isinstance(s, ast.Return)]
     ok = bool(rets) and all(
         isinstance(r.value, ast.Call) and isinstance(r.value.func, ast.Attribute)
-        and r.value.func.attr == "astype" and norm(r.value.func.value) == arr
-        and r.value.args and norm(r.value.args[0]) == "output_dtype"
+        and r.value.func.attr == "astype"
+        and norm(r.value.func.value) in tracked_all
+        and r.value.args and norm(r.value.args[0]) == out_param
         for r in rets)
     col.add(rule + ".final-cast", fn, "return %s.astype(output_dtype)" % arr,
             ok, "" if ok else "the converter does not return the rounded / "
